@@ -469,17 +469,20 @@ func (f *Frame) appendCall(in *ssa.Call) {
 			res := f.fresh("app_"+in.Name()+".arr"+l.path, ArrayS(IntS, l.sort))
 			ib := Bound{Name: "i!" + in.Name(), S: IntS}
 			iv := Var(ib.Name, IntS)
-			f.assume(Forall([]Bound{ib}, Implies(And(Ge(iv, IntLit(0)), Lt(iv, s.Len)), Eq(Select(res, Add(newOff, iv)), Select(oldArr, Add(s.Off, iv))))), "append keeps the old elements")
+			// quantified over the absolute index of the result array, so that select(res, k) is the trigger
+			f.assume(Forall([]Bound{ib}, Implies(And(Ge(iv, newOff), Lt(iv, Add(newOff, s.Len))), Eq(Select(res, iv), Select(oldArr, Add(s.Off, Sub(iv, newOff)))))), "append keeps the old elements")
+			at0 := Add(newOff, s.Len)
+			rel := Sub(iv, at0)
 			var src *Term
 			switch y.K {
 			case VSlice:
-				src = Select(Select(cur, y.Base), Add(y.Off, iv))
+				src = Select(Select(cur, y.Base), Add(y.Off, rel))
 			case VBytes:
-				src = Select(y.Arr, Add(y.Off, iv))
+				src = Select(y.Arr, Add(y.Off, rel))
 			case VScalar:
-				src = App("str.to_code", IntS, App("str.at", StringS, y.X, iv))
+				src = App("str.to_code", IntS, App("str.at", StringS, y.X, rel))
 			}
-			f.assume(Forall([]Bound{ib}, Implies(And(Ge(iv, IntLit(0)), Lt(iv, n)), Eq(Select(res, Add(Add(newOff, s.Len), iv)), src))), "append copies the new elements")
+			f.assume(Forall([]Bound{ib}, Implies(And(Ge(iv, at0), Lt(iv, Add(at0, n))), Eq(Select(res, iv), src))), "append copies the new elements")
 			// in place: everything outside the appended range is unchanged
 			f.assume(Implies(fits, Forall([]Bound{ib}, Implies(Or(Lt(iv, Add(s.Off, s.Len)), Ge(iv, Add(Add(s.Off, s.Len), n))), Eq(Select(res, iv), Select(oldArr, iv))))), "in-place append leaves other elements alone")
 			f.st.Set(k, srt, f.E.name(Store(cur, nb, res), f.prefix+"s$"+k))
